@@ -105,6 +105,24 @@ CHECKS = {
    "DESIGN.md section 3 C18"),
 }
 
+# sentences appended to the level text (families added after the seeded rounds)
+ADD = {
+ "C02": " Added: fillers of 2^18 and 10^6 bits with one run planted at j*2^k (k=10..17) of length 2^k-1..2^(k+1), all four run-based calls.",
+ "C04": " Added: near-identical blocks (one bit flipped in the last 8 positions / first / middle) among 100 filler blocks for m=67,100,500,1000.",
+ "C05": " Added: every 1- and 2-byte string and fillers of 3..2500 bytes through the byte entry point and the registry runner.",
+ "C06": " Added: the lower tail 10^-k, 3*10^-k down to the subnormals and the floats around 2^-1074..2^-26 cut-off candidates.",
+ "C07": " Added: exact-length streams whose final Read reports io.EOF together with its bytes.",
+ "C08": " Added: two consecutive calls on one source (results and bytes consumed equal the sequential twin's), exact-length streams ending with (n>0, io.EOF), another parallel workflow called first.",
+ "C09": " Added: W+2 consecutive failing calls in one execution; package-level channels of the code under test (limiters) are modelled, so a slot leaked on an error path is a deadlock of the model.",
+ "C10": " Added: exact-length streams whose final Read reports io.EOF together with its bytes (sequential and parallel).",
+ "C11": " Added: sources whose final Read reports io.EOF together with the last requested bytes; requests up to 2^20 (2^24) bytes with stuck and biased contents.",
+ "C13": " Added: directories named *.bin/*.dat, a longer stale report at the report path, two sample files sharing a base name in two sub-directories (one row each).",
+ "C14": " Added: under the controlled scheduler (stub runners) a rejected stream is judged while a second goroutine judges a healthy stream with the same detection (seq|fast x seq|fast, <=1 deviation, four policies): each call must return what it returns alone; healthy requests before stuck ones; single-shot lengths to 2^22 (2^24).",
+ "C15": " Added: ReadGroup on file sizes around 2^12..2^18 and over a named pipe delivering the contents in 1..3 pieces; byte lengths at regime boundaries; inputs of 2^20+3 .. 12500003 bytes.",
+ "C18": " Added: every registry runner repeated alone and paired with itself on 10^6-bit samples (<=1 preemption); inputs are windows of larger buffers (the spare capacity is hashed too).",
+ "C20": " Added: output and working directories whose names contain printf verbs, blanks, non-ASCII characters, a trailing separator or dot segments; names ending in .bin/.dat; larger stale samples.",
+}
+
 NOT_YET = {
 }
 
@@ -115,6 +133,7 @@ def main():
     for i in ids:
         if i in CHECKS:
             eng, cat, tech, text, note, ref = CHECKS[i]
+            text += ADD.get(i, "")
             checks.append({
                 "property_id": i,
                 "quick_cmd": "./check %s --tier quick" % i,
@@ -139,7 +158,7 @@ def main():
             "add_only": True,
         },
         "engines": [
-            {"name": "E1-vsched", "path": "/verif/harness/vsched, /verif/harness/vinstr, /verif/harness/explore", "serves_properties": ["C08", "C09", "C10", "C13", "C18", "C20"],
+            {"name": "E1-vsched", "path": "/verif/harness/vsched, /verif/harness/vinstr, /verif/harness/explore", "serves_properties": ["C08", "C09", "C10", "C12", "C13", "C14", "C18", "C20"],
              "kind_free_text": "own cooperative scheduler + AST instrumenter (applied to /repo's working tree at check time) + stateless deviation-bounded DFS over all interleavings of the real goroutines"},
             {"name": "E2-enum-refmodel", "path": "/verif/harness/refmodel, /verif/harness/checks", "serves_properties": ["C01", "C02", "C03", "C04", "C05", "C06", "C11", "C12", "C15", "C16", "C17", "C19"],
              "kind_free_text": "bounded-exhaustive input enumeration (all bit strings of small lengths, whole finite domains, complete structured families) against an independent reference model"},
